@@ -2,6 +2,7 @@ package props
 
 import (
 	"fmt"
+	"math"
 
 	"github.com/vbauerster/mpb/v8/decor"
 	"pgregory.net/rapid"
@@ -42,6 +43,7 @@ type Profile struct {
 	OnCompleteFill int
 	LateAdd        bool
 	Epilogues      []string
+	PrioExtreme    bool // priorities from the whole int range now and then
 	Faults         int // percent of scenarios with one filler/extender fault
 	PtyRowsMax     int
 }
@@ -52,6 +54,10 @@ func pct(t *rapid.T, p int, label string) bool {
 	}
 	return rapid.IntRange(0, 99).Draw(t, label) < p
 }
+
+// extremePrios stay above the range pop-completed mode uses for finished bars
+// (math.MinInt32 upwards, one step per popped bar).
+var extremePrios = []int{math.MaxInt64, math.MaxInt64 - 1, 1 << 62, 1 << 40, 1 << 31, 1<<31 - 1, -(1 << 31) + 100000, -(1 << 20), -(1 << 30)}
 
 var decorTexts = []string{"", "a", "ab", "abc", "wide世", "世界", "xxxxxxxx", "0123456789ab", "é", "12", "longer text here"}
 
@@ -91,6 +97,9 @@ func genBarSpec(t *rapid.T, prof *Profile, idx int, succOf map[int]bool) engine.
 	}
 	if prof.Prio && rapid.Bool().Draw(t, "hasprio") {
 		p := rapid.IntRange(-3, 6).Draw(t, "prio")
+		if prof.PrioExtreme && pct(t, 20, "extremeprio") {
+			p = rapid.SampledFrom(extremePrios).Draw(t, "xprio")
+		}
 		b.Priority = &p
 	}
 	b.Trim = pct(t, 20, "trim")
@@ -368,6 +377,9 @@ func genSteps(t *rapid.T, prof *Profile, sc *engine.Scenario) []engine.Step {
 				cs = append(cs, choice{3, func() {
 					i := pickLive("priobar")
 					v := int64(rapid.IntRange(-3, 8).Draw(t, "priov"))
+					if prof.PrioExtreme && pct(t, 15, "extremepriov") {
+						v = int64(rapid.SampledFrom(extremePrios).Draw(t, "xpriov"))
+					}
 					if rapid.Bool().Draw(t, "lazy?") {
 						steps = append(steps, engine.Step{Op: "uprio", Bar: i, N: v, Flag: rapid.Bool().Draw(t, "lazy")})
 					} else {
